@@ -324,6 +324,10 @@ func (m *Impl) runWith(load func(L *lua.LState) (*lua.LFunction, error), budget 
 	}
 	L.Push(fn)
 	err = L.PCall(0, lua.MultRet, nil)
+	if q := lua.VerifQuiescent(L); q != "" && L == m.L {
+		// white-box: after the outermost protected call nothing of the run may be left behind
+		m.events = append(m.events, Event{"STATE-NOT-QUIESCENT", []string{q}, atomic.LoadInt64(&m.B.Count)})
+	}
 	out.Events = m.events
 	if err != nil {
 		out.Failed = true
